@@ -56,6 +56,9 @@ type procResult struct {
 	samples      []any
 	// handler phase
 	hReq, hFail, hStream, hGoHTML, hOverlap int64
+	bufioGroups, bufioGroupRenders          int64
+	onceFirstUses                           int64
+	mwRequests, mwRounds                    int64
 	spans                                   [][2]int64
 }
 
@@ -218,6 +221,51 @@ func judgeProc(c *core.Ctx, name string, dev bool, jobs []rcorpus.Job, run corpu
 			}
 		case "concdone":
 			res.rewrites += ev.K
+		case "cb":
+			// several renders into one caller-owned bufio.Writer, one Flush: the sink holds
+			// exactly the concatenation of the sequential references
+			c.Eval(1)
+			res.bufioGroups++
+			res.bufioGroupRenders += int64(len(ev.Keys))
+			var want []byte
+			for _, k := range ev.Keys {
+				if r := refs[k][0]; r != nil {
+					want = append(want, r.D...)
+				} else {
+					res.inconclusive = append(res.inconclusive, name+": bufio group without reference: "+k)
+					return
+				}
+			}
+			if o := ev.Out; o == nil || o.Err != nil || o.N != len(want) || o.H != rcorpus.Hash(want) {
+				bad("bufio-group", "phase %s goroutine %d step %d: %v rendered one after another into the goroutine's own bufio.Writer #%d, then flushed: err=%s, sink holds %d bytes (hash %s); the sequential references add up to %d bytes (hash %s)",
+					ev.Tag, ev.G, ev.I, ev.Keys, ev.K, errText(o.Err), o.N, o.H, len(want), rcorpus.Hash(want))
+			}
+		case "mr":
+			// request through a CSSMiddleware shared by the requests of its round
+			c.Eval(1)
+			res.mwRequests++
+			if ev.G == 0 {
+				res.mwRounds++
+			}
+			ref := refs[ev.Key][0]
+			o := ev.Out
+			if ref == nil || o == nil {
+				res.inconclusive = append(res.inconclusive, name+": middleware request without reference: "+ev.Key)
+				return
+			}
+			where := fmt.Sprintf("phase %s round %d request %d page %s", ev.Tag, ev.I, ev.G, ev.Key)
+			wantCT := "text/html; charset=utf-8"
+			if strings.HasSuffix(ev.Key, ".css") {
+				wantCT = "text/css"
+			}
+			switch {
+			case o.Err != nil && o.Err.Panic:
+				bad("middleware-panic", "%s panicked: %s", where, o.Err.Msg)
+			case !ref.IsWhole(o):
+				bad("middleware-body", "%s: body has %d bytes (hash %s); the same request alone through a middleware of its own gives %d bytes (hash %x)", where, o.N, o.H, ref.L(), ref.Prefix[ref.L()])
+			case ev.Code != 200 || ev.CT != wantCT:
+				bad("middleware-head", "%s: status %d Content-Type %q", where, ev.Code, ev.CT)
+			}
 		case "hr":
 			c.Eval(1)
 			res.hReq++
@@ -244,6 +292,9 @@ func judgeProc(c *core.Ctx, name string, dev bool, jobs []rcorpus.Job, run corpu
 			}
 		case "cr":
 			res.renders++
+			if ev.Key == "OnceZero" {
+				res.onceFirstUses++
+			}
 			c.Eval(1)
 			ref := refs[ev.Key][0]
 			o := ev.Out
@@ -447,8 +498,12 @@ func runProc(c *core.Ctx, b *rcorpus.Built, scratch string, p proc) *procResult 
 	racePath := filepath.Join(scratch, "race-"+p.name)
 	env := append([]string{"GORACE=halt_on_error=0 log_path=" + racePath}, p.env...)
 	timeout := time.Duration(c.Pick(15, 60)) * time.Minute
+	t0 := time.Now()
 	run := corpus.Run(b.Bin, nil, rcorpus.Encode(p.jobs), env, b.Pkg.Dir, timeout)
-	return judgeProc(c, p.name, p.dev, p.jobs, run, readRaceLogs(racePath), timeout)
+	t1 := time.Now()
+	res := judgeProc(c, p.name, p.dev, p.jobs, run, readRaceLogs(racePath), timeout)
+	c.Set("wall_s_driver+judge/"+p.name, fmt.Sprintf("%.1f+%.1f", t1.Sub(t0).Seconds(), time.Since(t1).Seconds()))
+	return res
 }
 
 // mixComps is the concurrent workload: everything except the very long
@@ -549,6 +604,8 @@ func privateRoot(devRoot, name string) string {
 func Run(c *core.Ctx) {
 	c.Rule = "cases = concurrent phases: G goroutines × M renders over the shared template set (hand-written components with package-level once handles, css classes and script values + seeded random Interp trees), " +
 		"odd goroutines render into faulting writers (hard/short/zero at a random offset, failing expression), every 4th goroutine's writer yields per Write; DefaultBufferSize 8/16/64; with and without the H2 hook installed; " +
+		"every goroutine also renders groups of 2-4 components into its own bufio.Writer (size 16 / default / 8192) with one Flush at the end, and starts each phase with the first ever use of package-level zero-value once handles (all goroutines together); " +
+		"CSS middleware: rounds of G simultaneous requests (own request contexts) through one fresh NewCSSMiddleware with registered classes, held by a barrier behind the middleware, pages with registered / unregistered css classes and scripts; " +
 		"handler phase: G goroutines × M requests through templ.Handler (buffered, streamed; WithStatus / WithContentType / WithErrorHandler; recorders whose Write yields or naps) and templ.ToGoHTML, a third failing at a failable site; " +
 		"development mode: same, text files from the real FSEventHandler, plus a goroutine replacing dev.templ's text file (4 rewrites per phase). " +
 		"non-trivial = phases in which the pool hook saw a buffer released by one goroutine and handed to another, and dev-mode renders that contain bytes of two text-file versions."
@@ -595,7 +652,8 @@ func Run(c *core.Ctx) {
 				nph := c.Pick(4, 8)
 				for ph := 0; ph < nph; ph++ {
 					jobs = append(jobs, rcorpus.Job{Op: "conc", Tag: fmt.Sprintf("%s/ph%d", name, ph), G: s.g, M: s.m / nph, Seed: seeds.Int63n(1 << 40),
-						Comps: comps, Hook: hook, Gid: true, Gosched: true, Fault: ph%2 == 1})
+						Comps: comps, Hook: hook, Gid: true, Gosched: true, Fault: ph%2 == 1,
+						Bufio: true, OnceFresh: 6, OnceComp: &rcorpus.Comp{Key: "OnceZero", Name: "OnceZero"}})
 				}
 				procs = append(procs, proc{name: name, jobs: jobs})
 			}
@@ -610,6 +668,19 @@ func Run(c *core.Ctx) {
 					Comps: comps, Hook: ph == 0, Gid: true})
 			}
 			procs = append(procs, proc{name: name, jobs: jobs})
+		}
+		// CSS middleware: rounds of G simultaneous requests through one fresh CSSMiddleware
+		var pages []rcorpus.Comp
+		for _, cp := range comps {
+			switch cp.Name {
+			case "ClassAttr", "Page", "Layout", "OnClick", "ScriptCall", "Oncey", "OnceZero", "Text", "UseWrap", "NonceScripts":
+				pages = append(pages, cp)
+			}
+		}
+		for _, s := range []shape{{8, 100 * scale, 64}, {32, 25 * scale, 16}} {
+			name := fmt.Sprintf("mw-g%d", s.g)
+			procs = append(procs, proc{name: name, jobs: []rcorpus.Job{{Op: "config", BufSize: s.buf, Gid: true},
+				{Op: "mwconc", Tag: name + "/ph0", G: s.g, M: s.m, Seed: seeds.Int63n(1 << 40), Comps: pages}}})
 		}
 		// development mode
 		txt, versions := devSetup(c, b, devRoot)
@@ -639,7 +710,7 @@ func Run(c *core.Ctx) {
 	}
 
 	results := make([]*procResult, len(procs))
-	sem := make(chan struct{}, 4) // 4 race-instrumented processes at a time on 16 cores
+	sem := make(chan struct{}, 6) // 6 race-instrumented processes at a time on 16 cores
 	var wg sync.WaitGroup
 	for i := range procs {
 		wg.Add(1)
@@ -657,6 +728,11 @@ func Run(c *core.Ctx) {
 	var hookPhases, movedPhases int
 	for _, r := range results {
 		c.Add("renders", int(r.renders))
+		c.Add("bufio_writer_groups_several_renders_one_flush", int(r.bufioGroups))
+		c.Add("bufio_writer_group_renders", int(r.bufioGroupRenders))
+		c.Add("first_ever_concurrent_uses_of_zero_value_once_handles", int(r.onceFirstUses))
+		c.Add("css_middleware_requests", int(r.mwRequests))
+		c.Add("css_middleware_rounds_with_fresh_middleware", int(r.mwRounds))
 		c.Add("handler_requests", int(r.hReq))
 		c.Add("handler_requests_failing_at_a_site", int(r.hFail))
 		c.Add("handler_requests_streamed", int(r.hStream))
@@ -701,6 +777,9 @@ func Run(c *core.Ctx) {
 	}
 	if c.ReplayFile == "" && (c.Get("handler_requests_failing_at_a_site") == 0 || c.Get("handler_overlapping_request_pairs") == 0) {
 		c.Inconclusive("handler phase: no failing request or no overlapping requests were observed")
+	}
+	if c.ReplayFile == "" && (c.Get("bufio_writer_groups_several_renders_one_flush") == 0 || c.Get("css_middleware_requests") == 0 || c.Get("first_ever_concurrent_uses_of_zero_value_once_handles") == 0) {
+		c.Inconclusive("bufio groups, CSS middleware rounds or first uses of zero-value once handles were not exercised")
 	}
 	if c.ReplayFile == "" && c.Get("dev_mode_text_file_rewrites_during_phases") == 0 {
 		c.Inconclusive("no text file was rewritten while renders were running")
